@@ -1,0 +1,17 @@
+//go:build verif
+
+// Constructors used only by the deterministic-simulation harness (build tag verif).
+package gnmi
+
+import (
+	"github.com/onosproject/onos-config/pkg/pluginregistry"
+	sb "github.com/onosproject/onos-config/pkg/southbound/gnmi"
+	"github.com/onosproject/onos-config/pkg/store/topo"
+	configuration "github.com/onosproject/onos-config/pkg/store/v2/configuration"
+	proposal "github.com/onosproject/onos-config/pkg/store/v2/proposal"
+	transaction "github.com/onosproject/onos-config/pkg/store/v2/transaction"
+)
+
+func NewServerForVerif(t topo.Store, tx transaction.Store, p proposal.Store, c configuration.Store, r pluginregistry.PluginRegistry, conns sb.ConnManager, limit int) *Server {
+	return &Server{pluginRegistry: r, topo: t, transactions: tx, proposals: p, configurations: c, conns: conns, gnmiSetSizeLimit: limit}
+}
